@@ -438,7 +438,8 @@ class DocGen:
         if t.draw(8, "alias") == 7:
             alias_bits.append("k")
         alias = fname + "_" + "_".join(alias_bits) if alias_bits else None
-        directives += self.skip_include(used)
+        if root_kind != "subscription":  # not allowed on the root field of a subscription
+            directives += self.skip_include(used)
         sub = ""
         parts = None
         if named not in LEAF_NAMES:
